@@ -108,19 +108,37 @@ func checkC10(p *Program, r *Report) {
 				r.Unk(construct, p.Pos(ix.Pos()), "index "+idx+" is not cursor>>3 of a parameter")
 				return
 			}
-			// dominated by cur < session.keyBitLen on the true edge
+			// dominated by the edge on which cursor < session.keyBitLen holds
 			okGuard := false
 			for d := b; d != nil; d = d.Idom() {
 				iff, ok := lastInstr(d).(*ssa.If)
 				if !ok || d == b {
 					continue
 				}
-				c := e.eval(iff.Cond).String()
-				if strings.HasPrefix(c, "cmp:<("+cur.Name()+",") && strings.HasSuffix(c, ".keyBitLen)") {
-					// the read is on the true side
-					if d.Succs[0].Dominates(b) || d.Succs[0] == b {
-						okGuard = true
-					}
+				bo, ok := iff.Cond.(*ssa.BinOp)
+				if !ok {
+					continue
+				}
+				x, y := e.eval(bo.X).String(), e.eval(bo.Y).String()
+				isCur := func(t string) bool { return t == cur.Name() }
+				isLen := func(t string) bool { return strings.HasSuffix(t, ".keyBitLen") }
+				ltSucc := -1 // successor on which cur < len holds
+				switch {
+				case isCur(x) && isLen(y) && bo.Op == token.LSS:
+					ltSucc = 0
+				case isCur(x) && isLen(y) && bo.Op == token.GEQ:
+					ltSucc = 1
+				case isLen(x) && isCur(y) && bo.Op == token.GTR:
+					ltSucc = 0
+				case isLen(x) && isCur(y) && bo.Op == token.LEQ:
+					ltSucc = 1
+				}
+				if ltSucc < 0 {
+					continue
+				}
+				// the read must be unreachable from the other successor
+				if !reachableFrom(d.Succs[1-ltSucc], nil)[b] {
+					okGuard = true
 				}
 			}
 			r.Check(okGuard, construct, p.Pos(ix.Pos()), "dominated by cursor < keyBitLen of the session", "the byte read key[cursor>>3] is not dominated by a cursor < keyBitLen test: a cursor at or beyond the key end reads out of range")
@@ -230,6 +248,9 @@ func checkC10(p *Program, r *Report) {
 	// ---- node decoder siblings (shared with C01.layout): a copy that reads a word the others
 	// guard (the word straddled by a short node) panics on tries whose bitmap ends there
 	checkLayoutSiblings(p, r, "C10.node-decoder")
+
+	// ---- a hit carries a supplied value: the value array layout decision is per element
+	checkVLenWidth(p, r, "C10.vlen-width")
 
 	// ---- same descent
 	r.Rule("C10.same-descent", "structure+E6", "one descent per answer family; equal cursor arithmetic", 3)
@@ -535,6 +556,62 @@ func checkEmptyGuard(p *Program, r *Report) {
 		}
 		if len(m) > 0 {
 			sentinels[f] = m
+		}
+	}
+	// a function that returns constants when a callee reports its empty-trie sentinel inherits a sentinel
+	for round := 0; round < 3; round++ {
+		for _, f := range p.FuncsOf(triePath) {
+			if f.Synthetic != "" || len(f.Blocks) == 0 || sentinels[f] != nil {
+				continue
+			}
+			for _, b := range f.Blocks {
+				iff, ok := lastInstr(b).(*ssa.If)
+				if !ok {
+					continue
+				}
+				bo, ok := iff.Cond.(*ssa.BinOp)
+				if !ok || (bo.Op != token.EQL && bo.Op != token.NEQ) {
+					continue
+				}
+				c, okc := constInt(bo.Y)
+				v := bo.X
+				if !okc {
+					continue
+				}
+				var call *ssa.Call
+				idx := 0
+				switch y := v.(type) {
+				case *ssa.Call:
+					call = y
+				case *ssa.Extract:
+					call, _ = y.Tuple.(*ssa.Call)
+					idx = y.Index
+				}
+				if call == nil || sentinels[calleeOf(call)] == nil {
+					continue
+				}
+				if sv, ok := sentinels[calleeOf(call)][idx]; !ok || sv != c {
+					continue
+				}
+				eqSucc := 0
+				if bo.Op == token.NEQ {
+					eqSucc = 1
+				}
+				ret, ok := lastInstr(b.Succs[eqSucc]).(*ssa.Return)
+				if !ok {
+					continue
+				}
+				m := map[int]int64{}
+				for i, res := range ret.Results {
+					if cc, ok := constInt(res); ok {
+						m[i] = cc
+					}
+				}
+				if len(m) > 0 && b.Dominates(ret.Block()) {
+					sentinels[f] = m
+				}
+				break
+			}
 		}
 	}
 	guardedAt := func(f *ssa.Function, in ssa.Instruction) bool {
